@@ -36,7 +36,27 @@ def configure(obj, kind, case, side="tx"):
             obj.auto_ack = False
         obj.crc = case["crc"]
         if static is None:
-            obj.dynamic_payloads = True
+            dstyle = case.get("dyn_style", "attr")
+            used = sorted({0, 1, case["pipe"]})
+            if dstyle == "attr":
+                obj.dynamic_payloads = True
+            elif dstyle == "off_then_pipes":
+                # switched off for all pipes first, then on again pipe by pipe through the function form
+                obj.dynamic_payloads = False
+                for p in used:
+                    obj.set_dynamic_payloads(True, p)
+            elif dstyle == "pipes_off_then_on":
+                # every pipe switched off one by one (the last one takes the feature with it), then the used ones on
+                for p in range(6):
+                    obj.set_dynamic_payloads(False, p)
+                for p in reversed(used):
+                    obj.set_dynamic_payloads(True, p)
+            elif dstyle == "mask":
+                obj.dynamic_payloads = False
+                obj.dynamic_payloads = sum(1 << p for p in used)
+            else:  # "list"
+                obj.dynamic_payloads = False
+                obj.dynamic_payloads = [p in used for p in range(6)]
         else:
             obj.dynamic_payloads = False
             style = case.get("pl_style", "all")
